@@ -1,12 +1,14 @@
 #!/usr/bin/env bash
 # Every seeded change x every check (quick tier): which checks catch which changes.
-# Meant for `vp run --with-repo -- tools/seed_matrix.sh` (uses $VP_RUN_REPO if set).
+# Meant for `vp run --with-repo -- tools/seed_matrix.sh [seeded dirs...]` (uses $VP_RUN_REPO if set);
+# several shards may run side by side, each in its own snapshot.
 set -u
 HERE="$(cd "$(dirname "$(readlink -f "$0")")/.." && pwd)"
 cd "$HERE"
 export VERIF_REPO="${VP_RUN_REPO:-${VERIF_REPO:-/repo}}"
 ./setup.sh >/dev/null 2>&1
 ALL="C01 C02 C03 C04 C05 C06 C07 C08 C09 C10 C11 C12 C13 C14 C15 C16 C17 C18 C19"
-for d in seeded/*/; do
+[ $# -eq 0 ] && set -- seeded/*/
+for d in "$@"; do
   tools/seed_eval.sh "$d" $ALL
 done
